@@ -189,7 +189,11 @@ def render(objs, o, stream=None):
     """real HTMLSerializer(**o).render(walker(tree)[, encoding]) -> decoded text.  stream: a ready token list instead"""
     from html5lib import treewalkers
     from html5lib.serializer import HTMLSerializer
-    s = HTMLSerializer(**ser_kwargs(o))
+    kw = ser_kwargs(o)
+    key = tuple(sorted(kw.items()))
+    s = _SERIALIZERS.get(key)            # long-lived: one serializer object per option vector, reused for every tree
+    if s is None:
+        s = _SERIALIZERS[key] = HTMLSerializer(**kw)
     src = stream if stream is not None else treewalkers.getTreeWalker(o["walker"])(objs[o["walker"]])
     out = s.render(src, o["encoding"]) if o["encoding"] else s.render(src)
     if o["encoding"]:
@@ -201,6 +205,53 @@ def render(objs, o, stream=None):
 def real_reparse(text, builder):
     from . import realparse
     return realparse.parse(text, None, False, builder)
+
+
+_SERIALIZERS = {}
+# Earlier, unrelated inputs a long-lived HTMLParser object is given before it re-parses a serializer output: each leaves
+# the parser in a different end state (quirks / limited-quirks mode, open table cell with a formatting marker, non-empty list
+# of active formatting elements, frameset, select, foreign content, RCDATA / script tokenizer state at EOF, form pointer,
+# foster-parented table text, plaintext, attributes merged into html/body, scripting on, fragment cases with a context).
+PRIORS = [("doc", "<p>x", None, False),
+          ("doc", '<!DOCTYPE html PUBLIC "-//W3C//DTD HTML 4.01 Transitional//EN"><table><tr><td><b>x', None, False),
+          ("doc", '<!DOCTYPE html PUBLIC "-//W3C//DTD XHTML 1.0 Transitional//EN" "http://www.w3.org/TR/xhtml1/DTD/xhtml1-transitional.dtd"><b><i><p>x',
+           None, False),
+          ("doc", "<frameset><frame>", None, False),
+          ("doc", "<select><option>x", None, False),
+          ("doc", "<svg><g><title>x", None, False),
+          ("doc", "<title>a</title><textarea>x", None, False),
+          ("doc", "<script>x", None, True),
+          ("doc", "<form><p>x<table>y<tr>", None, False),
+          ("frag", "<td>x", "tr", False),
+          ("frag", "x</title>y", "title", False),
+          ("frag", "<option>x", "select", False),
+          ("doc", "<html a=b><head c=d></head><body e=f>x</body></html> y<!--c-->", None, False),
+          ("doc", "<!DOCTYPE html><p>x<plaintext>y", None, False),
+          ("doc", "<math><mi><p>x<noscript>y", None, True)]
+_LONG = {}
+
+
+def prior_label(k):
+    kind, src, cont, scr = PRIORS[k % len(PRIORS)]
+    return "%s%s:%s" % (kind, "(%s)" % cont if cont else "", src)
+
+
+def primed_reparse(text, builder, k):
+    """re-parse `text` with the process-wide long-lived HTMLParser object of this builder, right after that object has
+    handled the unrelated input PRIORS[k]"""
+    import html5lib
+    from html5lib import treebuilders
+    p = _LONG.get(builder)
+    if p is None:
+        tb = treebuilders.getTreeBuilder("etree", fullTree=True) if builder == "etree" else treebuilders.getTreeBuilder("dom")
+        p = _LONG[builder] = html5lib.HTMLParser(tree=tb)
+    kind, src, cont, scr = PRIORS[k % len(PRIORS)]
+    if kind == "doc":
+        p.parse(src, scripting=scr)
+    else:
+        p.parseFragment(src, container=cont, scripting=scr)
+    r = p.parse(text, scripting=False)
+    return treeproj.from_etree_document(r) if builder == "etree" else treeproj.from_dom_document(r)
 
 
 def real_reparse_bytes(raw, encoding, builder="etree"):
